@@ -47,13 +47,16 @@ CLAIMED = {
     'C03': dict(
         technique='Lean 4 proof (facet-by-facet agreement over an arbitrary ordered field; cross-product identities for either handedness) + model↔code correspondence per body + Lean point monitor',
         text=("Proved in Lean over any linearly ordered field: for RPP, SPH, BOX with mutually orthogonal edges of "
-              "either handedness, RCC (any axis, all four branches of convert_cylinder), RHP/HEX with 15 entries and WED "
-              "(right wedge, either orientation of the slanted facet) the k-th emitted signed surface is MCNP's k-th "
+              "either handedness, RCC (any axis, all four branches of convert_cylinder), RHP/HEX with 15 entries, WED "
+              "(right wedge, either orientation of the slanted facet), RHP/HEX with 9 entries (rotate by 60° and 120°), REC "
+              "with 10 and 12 entries (elliptical cylinder through transformation_quad), ELL in both forms (spheroid in "
+              "the frame chosen by the converter, any of its three choices of the second axis) and TRC (either radius "
+              "larger, any axis, all four branches of convert_cone) the k-th emitted signed surface is MCNP's k-th "
               "facet with the outward side positive (BodyOK); hence a negative reference selects exactly the points "
               "inside every facet, a positive reference the points outside some facet (body_reference), and b.k "
               "designates the k-th facet (facet_reference). The model (MacroBodies.py facets → cards → join) is "
-              "compared with the code body by body incl. TRC; REC, ELL, ARB and the 9-entry RHP (transformation_quad, "
-              "rotate, vertex tables) are decided by the Lean spec monitor on probe decks only."),
+              "compared with the code body by body (all fifteen spellings); ARB (vertex table, facet descriptors) has no "
+              "theorem: correspondence + Lean spec monitor on probe decks."),
         design_ref='§8 C03'),
     'C04': dict(
         technique='Lean 4 proof (orthogonality identities, quadric transport by ring, frame transport; per transformed card over an ordered field) + model↔code correspondence per transformed card + Lean point monitor over all TR/TRCL spellings',
